@@ -188,6 +188,27 @@ def explicit_case(cls):
     return h
 
 
+def _edit_nested(I, cls, blk):
+    """Rebind an attribute of an object nested in the first item (viewport vectors, platform
+    geometry, a track's whole data array): objects handed out by separate decodes must not
+    be one shared object."""
+    np = I.np
+    if cls == "optical":
+        blk.channels[0].camera_viewport.size = np.array([1024, 768], dtype="<i4")
+    elif cls == "fpcal":
+        blk[0].size = np.array([9.0, 9.0], dtype="<f4")
+    elif cls == "data3d":
+        blk[0].data = np.full((1, 3), 7.0, dtype="<f4")
+    elif cls == "force3d":
+        blk[0].torque = np.full((1, 3), 7.0, dtype="<f4")
+    elif cls == "emg":
+        blk[0].data = np.full((1,), 7.0, dtype="<f4")
+    elif cls == "events":
+        blk[0].values = np.array([7.0], dtype="<f4")
+    elif cls == "fpdata":
+        blk.platforms[0].torque = np.full((1,), 7.0, dtype="<f4")
+
+
 def _edit_in_place(I, cls, blk):
     """In-place edit of the first item's first sample / field, through public attributes."""
     np = I.np
@@ -226,6 +247,8 @@ def decode_case(cls, mutation):
                 spec["remove"](a)
             elif mutation == "edit":
                 _edit_in_place(I, cls, a)
+            elif mutation == "edit_nested":
+                _edit_nested(I, cls, a)
             mexc = None
         except Exception as e:  # noqa: BLE001
             mexc = e
@@ -330,6 +353,6 @@ def instances(tier):
             out.append(Instance(f"{cls}.fresh.{m}", fresh_case(cls, m), goals=["done"]))
         if "explicit" in spec:
             out.append(Instance(f"{cls}.explicit", explicit_case(cls), goals=["done"]))
-        for m in ["add", "edit"] + (["remove"] if spec["remove"] else []):
+        for m in ["add", "edit", "edit_nested"] + (["remove"] if spec["remove"] else []):
             out.append(Instance(f"{cls}.decode.{m}", decode_case(cls, m), goals=["done"]))
     return out
